@@ -1,6 +1,6 @@
 (* C05 — the single statement over the whole record [dcase]:  wf_dcase d -> c05_guard d -> C05_holds d. *)
 From PG Require Import Lib.Strs Model.Dispatch Model.Response Proofs.Dispatch Proofs.Response.
-From Coq Require Import Lia ZifyBool.
+From Coq Require Import Lia ZifyBool Arith PeanoNat.
 
 (* ---------- equalities ---------- *)
 Lemma code_eqb_eq : forall a b, code_eqb a b = true -> a = b.
@@ -124,7 +124,7 @@ Lemma locate_wildcard : forall reg o r st ct,
   forallb (fun x => implb (is_wildcard_2xx (cr_code x)) (code_eqb (cr_code x) (cr_code r))) o = true ->
   declared_num o st = false -> in_range wildcard_lo wildcard_hi st = true ->
   handle reg o st ct = (if is_strategy_resp o r then prim_path reg o ct else secondary_path reg (resolve o) ct r)
-  /\ In r (cothers o).
+  /\ In r (cothers o) /\ wildcard_resp o = Some r.
 Proof.
   intros reg o r st ct Hd Hr Hw Hu Hfree Hrange.
   assert (Hnum : forall x, In x o -> match cr_code x with Num k => k =? st | _ => false end = false).
@@ -147,9 +147,9 @@ Proof.
       apply resp_eqb_code in E. rewrite Hpc in E. rewrite E in Hw. discriminate. }
     unfold find_status. rewrite find_none_all by (intros x Hx; apply Hnum; apply filter_In in Hx; tauto).
     rewrite (Hwild _ Hin) by (intros x Hx; apply filter_In in Hx; tauto). rewrite Hrange.
-    split; [reflexivity | exact Hin].
+    split; [reflexivity | split; [exact Hin | reflexivity]].
   - unfold find_status. rewrite find_none_all by (intros x Hx; apply Hnum; exact Hx).
-    rewrite (Hwild o Hr) by auto. rewrite Hrange. split; [reflexivity | exact Hr].
+    rewrite (Hwild o Hr) by auto. rewrite Hrange. split; [reflexivity | split; [exact Hr | reflexivity]].
 Qed.
 
 Lemma strategy_resp_primary : forall o r,
@@ -335,8 +335,7 @@ Proof.
         by (rewrite map_map; reflexivity).
       rewrite Hmm in *. clear Hmm.
       destruct (dedup_types (map ctype_to_python (c0 :: c1 :: rest')) []) as [|t [|t2 ts]] eqn:Hdd.
-      * exfalso. destruct (dedup_head (ctype_to_python c0) (map ctype_to_python (c1 :: rest'))) as [x Hx].
-        cbn [map] in Hdd. rewrite Hx in Hdd. discriminate.
+      * exfalso. cbn [map dedup_types existsb] in Hdd. discriminate.
       * (* all content types resolve to one Python type *)
         destruct (dedup_single _ _ _ Hdd) as [Htin Hall].
         apply in_map_iff in Htin. destruct Htin as (e0 & Het & He0).
@@ -381,3 +380,185 @@ Proof.
                  --- cbn [snd]. rewrite Gby, Gs, Hsu. reflexivity.
               ** unfold want_json; destruct (needs_structure (c_type e)); exact Hcov.
 Qed.
+
+
+(* ---------- a further 2xx response of a NON-streaming operation ---------- *)
+Lemma handler_schema_In : forall cs h, handler_schema cs = Some h -> In h cs.
+Proof.
+  intros cs h H. unfold handler_schema in H.
+  destruct (find (fun e => str_eqb (c_media e) m_json_handler) cs) as [x|] eqn:F.
+  - inversion H; subst. apply find_some in F. tauto.
+  - destruct cs; [discriminate|]. inversion H; subst. left. reflexivity.
+Qed.
+
+Lemma secondary_delivers : forall reg o r e h imported ct,
+  st_streaming (resolve o) = false ->
+  distinct_strs_b (map (fun x => lower_s (c_media x)) (cr_content r)) = true ->
+  In e (cr_content r) -> is_stream r = false -> json_like (c_media e) = true ->
+  handler_schema (cr_content r) = Some h -> c_media h = c_media e ->
+  heuristic_ok reg (c_type e) && implb (needs_structure (c_type e)) (deser_direct reg (c_type e)) = true ->
+  (secondary_registers reg r = true -> imported = true) ->
+  delivers imported (secondary_path reg (resolve o) ct r) (ideal false r (Some e)) = true
+  /\ ideal false r (Some e) = want_json (c_type e).
+Proof.
+  intros reg o r e h imported ct Hns Hdm Hin Hs Hj Hh Hm Hb Himp.
+  assert (h = e) by (apply (distinct_media_same (cr_content r)); auto; eapply handler_schema_In; eauto). subst h.
+  destruct (json_like_split _ Hj) as [Hnbin Hntext].
+  assert (Hw : ideal false r (Some e) = want_json (c_type e)).
+  { unfold ideal. rewrite Hs. cbn [andb]. rewrite Hnbin, Hntext. reflexivity. }
+  split; [|exact Hw]. rewrite Hw. unfold secondary_path. rewrite Hns, Hh.
+  apply delivers_structured_json; [exact Hb|]. intro Hsu. apply Himp. unfold secondary_registers. rewrite Hh. exact Hsu.
+Qed.
+
+Lemma delivers_no_structure : forall imported p w,
+  delivers true p w = true -> (forall c, p <> PStructure c) -> delivers imported p w = true.
+Proof.
+  intros imported p w H Hn. destruct p; try exact H. exfalso. eapply Hn. reflexivity.
+Qed.
+
+(* ====================================================================================================== *)
+(* The single statement.                                                                                  *)
+(* ====================================================================================================== *)
+Lemma module_has : forall reg ops o, In o ops -> registers_cattrs reg o = true -> module_has_cattrs reg ops = true.
+Proof. intros reg ops o Hin H. unfold module_has_cattrs. apply existsb_exists. exists o. auto. Qed.
+
+Lemma holds_from_parts : forall d,
+  delivers (the_imported d) (the_path d) (the_want d) = true ->
+  match the_want d with WJsonTyped t | WJsonRaw t => covers (st_ret (resolve (the_cop d))) t = true | _ => True end ->
+  C05_holds d = true.
+Proof.
+  intros d H1 H2. unfold C05_holds. rewrite module_syntax_always, H1. cbn [andb]. destruct (the_want d); auto.
+Qed.
+
+Lemma handler_schema_nonempty : forall cs e, In e cs -> handler_schema cs <> None.
+Proof.
+  intros cs e Hin H. unfold handler_schema in H.
+  destruct (find (fun x => str_eqb (c_media x) m_json_handler) cs); [discriminate|]. destruct cs; [destruct Hin | discriminate].
+Qed.
+
+Theorem guard_implies_holds : forall d, wf_dcase d = true -> c05_guard d = true -> C05_holds d = true.
+Proof.
+  intros d W G. unfold wf_dcase in W. cbv zeta in W.
+  apply andb_true_iff in W; destruct W as [W Wty]. apply andb_true_iff in W; destruct W as [W Wmedia].
+  apply andb_true_iff in W; destruct W as [W Wentry]. apply andb_true_iff in W; destruct W as [W Wcode].
+  apply andb_true_iff in W; destruct W as [W Wdist]. apply andb_true_iff in W; destruct W as [Wop Wresp].
+  apply Nat.ltb_lt in Wop. apply Nat.ltb_lt in Wresp.
+  unfold c05_guard in G.
+  apply andb_true_iff in G; destruct G as [G Gi]. apply andb_true_iff in G; destruct G as [G Gf].
+  apply andb_true_iff in G; destruct G as [Gb Gc].
+  assert (Ho : In (the_cop d) (d_module d)) by (unfold the_cop; apply nth_In; exact Wop).
+  assert (Hr : In (the_resp d) (the_cop d)) by (unfold the_resp; apply nth_In; exact Wresp).
+  remember (the_cop d) as o eqn:Eo. remember (the_resp d) as r eqn:Er.
+  assert (Heo : match the_entry d with Some e => In e (cr_content r) | None => cr_content r = [] end).
+  { unfold the_entry. rewrite <- Er. destruct (d_entry d) as [i|].
+    - apply Nat.ltb_lt in Wentry. destruct (nth_error (cr_content r) i) eqn:E; [eapply nth_error_In; eauto|].
+      apply nth_error_None in E. lia.
+    - destruct (cr_content r); [reflexivity | discriminate]. }
+  (* --- finishing the strategy-handled (primary) case --- *)
+  assert (FinP : is_primary_case d = true -> cprimary o = Some r ->
+                 the_path d = prim_path (d_reg d) o (the_ctype d) -> emits_strategy o = true -> C05_holds d = true).
+  { intros Hpc Hprim Hpath Hem. apply holds_from_parts; unfold the_want; rewrite Hpc; rewrite <- ?Er, <- ?Eo; [rewrite Hpath|];
+      change (the_ctype d) with (the_ct (the_entry d));
+      apply (primary_delivers (d_reg d) o r (the_entry d) (the_imported d) Hprim Wmedia Wty Heo).
+    all: try (intros e He Hs Hj; split;
+              [ unfold guard_F05b in Gb; rewrite <- Er, He, Hs, Hj in Gb; exact Gb
+              | unfold guard_F05i in Gi; rewrite <- Er, <- Eo, He, Hj, Hs in Gi; exact Gi ]).
+    all: try (intros e He Hs; unfold guard_F05c in Gc; cbv zeta in Gc; rewrite <- Er, He, Hpc in Gc;
+              cbn [negb andb] in Gc; rewrite Hs in Gc; unfold single_content, collapsed_content;
+              destruct (json_like (c_media e)); cbn [negb andb] in Gc;
+              [ rewrite orb_false_r in Gc; exact Gc | apply negb_true_iff in Gc; rewrite orb_false_r in Gc; exact Gc ]).
+    all: try (intro E; unfold guard_F05f, the_want in Gf; rewrite Hpc, <- Er, E in Gf; discriminate).
+    all: try (intro Hreg; unfold the_imported; apply (module_has _ _ o Ho); unfold registers_cattrs; rewrite Hem, Hreg; reflexivity). }
+  (* --- finishing a further 2xx response (secondary) --- *)
+  assert (FinS : is_primary_case d = false ->
+                 the_path d = secondary_path (d_reg d) (resolve o) (the_ctype d) r ->
+                 In r (cothers o) -> is_secondary_2xx o r = true -> C05_holds d = true).
+  { intros Hpc Hpath Hco Hsec.
+    destruct (st_streaming (resolve o)) eqn:Hst.
+    - (* further 2xx of a streaming operation *)
+      assert (Hnostruct : forall c, the_path d <> PStructure c).
+      { intros c E. rewrite Hpath in E. unfold secondary_path in E. rewrite Hst in E.
+        destruct (cr_content r); [discriminate | destruct (contains_s _ _); discriminate]. }
+      destruct (the_entry d) as [e|] eqn:He.
+      + unfold guard_F05c in Gc. cbv zeta in Gc. rewrite He, Hpc, <- Eo, Hst in Gc. cbn [negb andb] in Gc.
+        apply holds_from_parts; [apply delivers_no_structure; assumption|].
+        destruct (the_want d) eqn:Ew; auto; exfalso; rewrite Hpath in Gc; unfold secondary_path in Gc; rewrite Hst in Gc;
+          destruct (cr_content r); try discriminate; destruct (contains_s _ _); discriminate.
+      + assert (Hw : the_want d = WNone) by (unfold the_want; rewrite He; reflexivity).
+        apply holds_from_parts; rewrite Hw; [|exact I].
+        rewrite Hpath. unfold secondary_path. rewrite Hst, Heo. reflexivity.
+    - destruct (the_entry d) as [e|] eqn:He.
+      + unfold guard_F05c in Gc. cbv zeta in Gc. rewrite He, Hpc, <- Eo, Hst, <- Er in Gc. cbn [negb andb] in Gc.
+        destruct (is_stream r) eqn:Hs; [discriminate|].
+        destruct (json_like (c_media e)) eqn:Hj; [|rewrite orb_true_r in Gc; discriminate].
+        apply andb_true_iff in Gc. destruct Gc as [Gpick _]. apply negb_true_iff in Gpick.
+        destruct (handler_schema (cr_content r)) as [h|] eqn:Hh;
+          [|exfalso; eapply handler_schema_nonempty; eauto].
+        apply negb_false_iff in Gpick. unfold same_entry in Gpick. apply str_eqb_eq in Gpick.
+        unfold guard_F05b in Gb. rewrite <- Er, He, Hs, Hj in Gb. cbn [negb andb] in Gb.
+        assert (Himp : secondary_registers (d_reg d) r = true -> the_imported d = true).
+        { intro Hreg. unfold the_imported. apply (module_has _ _ o Ho). unfold registers_cattrs. apply orb_true_iff. right.
+          rewrite Hst. cbn [negb andb]. apply existsb_exists. exists r. split; [exact Hco | rewrite Hsec, Hreg; reflexivity]. }
+        destruct (secondary_delivers (d_reg d) o r e h (the_imported d) (the_ctype d) Hst Wmedia Heo Hs Hj Hh Gpick Gb Himp) as [Hd Hw].
+        apply holds_from_parts; unfold the_want; rewrite Hpc; rewrite <- ?Er, ?He; [rewrite Hpath; exact Hd|].
+        rewrite Hw. unfold guard_F05i in Gi. rewrite <- Er, <- Eo, He, Hj, Hs in Gi. cbn [negb andb] in Gi.
+        rewrite <- ?Eo. unfold want_json. destruct (needs_structure (c_type e)); exact Gi.
+      + assert (Hw : the_want d = WNone) by (unfold the_want; rewrite He; reflexivity).
+        apply holds_from_parts; rewrite Hw; [|exact I].
+        rewrite Hpath. unfold secondary_path, handler_schema. rewrite Hst, Heo. reflexivity. }
+  (* --- which branch handles the declared response --- *)
+  assert (Hpathdef : the_path d = handle (d_reg d) o (the_status d) (the_ctype d)) by (unfold the_path; rewrite <- Eo; reflexivity).
+  destruct (cr_code r) as [n| |s] eqn:Hcode.
+  - (* a numeric 2xx key *)
+    assert (Hst : the_status d = n) by (unfold the_status; rewrite <- Er, Hcode; reflexivity).
+    rewrite Hst in Hpathdef.
+    destruct (cprocessed o) as [[p k]|] eqn:Hp.
+    + destruct (resp_eqb (to_resp p) (to_resp r)) eqn:E.
+      * destruct (locate_primary_num (d_reg d) o r p k (the_ctype d) Wdist Hr Hp E) as (_ & Hck & Hprim & Hh).
+        rewrite Hcode in Hck. inversion Hck; subst k.
+        apply FinP; [unfold is_primary_case; rewrite <- Eo, <- Er, Hp; exact E | exact Hprim | rewrite Hpathdef; exact Hh
+                    | unfold emits_strategy; rewrite Hp; reflexivity].
+      * destruct (locate_secondary_num (d_reg d) o r n (the_ctype d) Wdist Hr Hcode Wcode) as [Hh Hco].
+        { intros p' n' Hq. rewrite Hp in Hq. inversion Hq; subst. exact E. }
+        apply FinS; [unfold is_primary_case; rewrite <- Eo, <- Er, Hp; exact E | rewrite Hpathdef; exact Hh | exact Hco
+                    | unfold is_secondary_2xx; rewrite Hcode; exact Wcode].
+    + destruct (locate_secondary_num (d_reg d) o r n (the_ctype d) Wdist Hr Hcode Wcode) as [Hh Hco].
+      { intros p' n' Hq. rewrite Hp in Hq. discriminate. }
+      apply FinS; [unfold is_primary_case; rewrite <- Eo, <- Er, Hp, Hcode; reflexivity | rewrite Hpathdef; exact Hh | exact Hco
+                  | unfold is_secondary_2xx; rewrite Hcode; exact Wcode].
+  - cbn in Wcode. discriminate.
+  - (* the "2XX" range key *)
+    apply andb_true_iff in Wcode; destruct Wcode as [Wc Wrange]. apply andb_true_iff in Wc; destruct Wc as [Wc Wfree].
+    apply andb_true_iff in Wc; destruct Wc as [Ww Wuniq]. apply negb_true_iff in Wfree.
+    rewrite <- Hcode in Wuniq.
+    assert (Hw : is_wildcard_2xx (cr_code r) = true) by (rewrite Hcode; exact Ww).
+    destruct (locate_wildcard (d_reg d) o r (the_status d) (the_ctype d) Wdist Hr Hw Wuniq Wfree Wrange) as (Hh & Hco & Hwr).
+    destruct (is_strategy_resp o r) eqn:Hsr.
+    + pose proof (strategy_resp_primary o r Wdist Hr Hsr) as Hprim.
+      apply FinP; [ | exact Hprim | rewrite Hpathdef; exact Hh | unfold emits_strategy; rewrite Hwr, Hsr; apply orb_true_iff; left; apply orb_true_r].
+      unfold is_primary_case. rewrite <- Eo, <- Er. destruct (cprocessed o) as [[p k]|] eqn:Hp.
+      * exfalso. pose proof (cprocessed_cprimary _ _ _ Hp) as Hq. rewrite Hprim in Hq. inversion Hq; subst p.
+        destruct (cprocessed_In _ _ _ Hp) as (_ & Hck & _). rewrite Hcode in Hck. discriminate.
+      * rewrite Hw, Hsr. reflexivity.
+    + apply FinS; [ | rewrite Hpathdef; exact Hh | exact Hco | unfold is_secondary_2xx; rewrite Hcode, Hsr; rewrite Ww; reflexivity].
+      unfold is_primary_case. rewrite <- Eo, <- Er. destruct (cprocessed o) as [[p k]|] eqn:Hp.
+      * destruct (cprocessed_In _ _ _ Hp) as (_ & Hck & _). unfold resp_eqb. cbn [to_resp r_code]. rewrite Hck, Hcode. reflexivity.
+      * rewrite Hsr. apply andb_false_r.
+Qed.
+
+(* The converse does NOT hold: the guard is sufficient, not exact.  Structuring a JSON-native type is harmless
+   (PStructure delivers WJsonRaw), so a case can satisfy the property although the heuristic "disagrees" with the
+   type's need (guard_F05b false): an alias name the registry does not know. *)
+Definition d_not_exact : dcase :=
+  {| d_reg := []; d_module := [[{| cr_code := Num 200;
+        cr_content := [{| c_media := m_json; c_type := TAliasPrim [78;97;109;101] false; c_binfmt := false |}] |}]];
+     d_op := 0%nat; d_resp := 0%nat; d_entry := Some 0%nat |}.
+Example guard_not_exact : wf_dcase d_not_exact = true /\ C05_holds d_not_exact = true /\ c05_guard d_not_exact = false.
+Proof. repeat split; vm_compute; reflexivity. Qed.
+
+(* non-vacuity of the single statement: the witnesses of Proofs/Response.v are well-formed and meet the guard *)
+Example main_nonvacuous :
+  wf_dcase d_ok = true /\ c05_guard d_ok = true /\ wf_dcase d_ok2 = true /\ c05_guard d_ok2 = true
+  /\ wf_dcase d_switch = true /\ c05_guard d_switch = true /\ wf_dcase d_F05g = true /\ c05_guard d_F05g = true
+  /\ wf_dcase d_F05h_202 = true /\ c05_guard d_F05h_202 = true.
+Proof. repeat split; vm_compute; reflexivity. Qed.
